@@ -7,7 +7,7 @@
    (state_bump).  g_runs is the ghost history of the (Local, captured) pairs logged by every body, written together with
    the EvRun log line; Machine.exec asserts (Stuck 5) that the pair a body logs is the stored one. *)
 From Cobweb Require Import Machine.
-From CobwebProofs Require Import RunnerInv OnceInv StateInv TicketInv TopLevel.
+From CobwebProofs Require Import RunnerInv OnceInv StateInv DropSpec TicketInv TopLevel.
 
 (* for every program, every system and every recursion pattern: the runs of t logged (0,0), (1,1), ..., (n-1,n-1) in this
    order — never reset, never re-created, never advanced by another system's run — and while the state exists both
@@ -33,6 +33,15 @@ Theorem history_matches_log : forall (P : program) sd t r c w,
   exists sm, log (body_sample P sd t r c w) = log (snd (sample_readers sd (xsys_of P t) w)) ++ [EvRun t r c sm].
 Proof. exact body_sample_records. Qed.
 (* the callback is present whenever a command is about to run it (take / reinsert never loses it): C11/C18 *)
+(* the state is dropped at most once (g_sdrops: one entry per drop of a live state, written next to the EvDropSys line),
+   a record that is still live was never dropped, and only a spent once wrapper is ever left in place without its
+   inner system *)
+Theorem state_is_dropped_at_most_once : forall (P : program) (fuel : nat) (w' : world), run P fuel = Ok w' ->
+  forall t, (dcount t w' <= 1)%nat
+    /\ (dcount t w' = 1%nat -> forall cb, alookup t (cbs w') = Some cb -> cb_live cb = false)
+    /\ (~ In t (spawned w') -> dcount t w' = O /\ alookup t (cbs w') = None)
+    /\ (forall cb, alookup t (cbs w') = Some cb -> cb_live cb = false -> cb_once cb <> None /\ cb_taken cb = true).
+Proof. exact state_dropped_at_most_once. Qed.
 Theorem callback_never_missing : forall (P : program) (fuel : nat) (n : N), run P fuel = Stuck n -> n = 4.
 Proof. exact run_never_panics. Qed.
 
@@ -56,4 +65,5 @@ Print Assumptions state_invariant_everywhere.
 Print Assumptions body_logs_the_stored_state.
 Print Assumptions assertion_guards_every_body.
 Print Assumptions history_matches_log.
+Print Assumptions state_is_dropped_at_most_once.
 Print Assumptions callback_never_missing.
